@@ -39,8 +39,8 @@ Proof. vm_compute. repeat split; try reflexivity; intro H; discriminate H. Qed.
 
 (* tie to the source *)
 Theorem c06_generated_conforms :
-  forallb (fun f => env_conforms_role decl_de (gen_env f) (spec_env f)) all_feats = true.
-Proof. exact generated_de_role. Qed.
+  forallb (fun f => request_side_conforms (gen_env f) (spec_env f)) all_feats = true.
+Proof. exact generated_request_side. Qed.
 
 Eval vm_compute in "ASSUMPTIONS c06_skip_exact". Print Assumptions c06_skip_exact.
 Eval vm_compute in "ASSUMPTIONS c06_unknown_member_step". Print Assumptions c06_unknown_member_step.
